@@ -259,6 +259,12 @@ impl<'a> Iterator for ExtDiagBlockIter<'a> {
             // Identifier-based Diagnostics
             0b01 => {
                 let length = usize::from(header & 0x3f);
+                if length == 0 {
+                    // The length includes the header byte, so 0 is malformed.
+                    log::warn!("Invalid ext diag block length: {:?}", remainder);
+                    self.cursor = raw_buffer.len();
+                    return None;
+                }
                 if remainder.len() < length {
                     log::warn!("Diagnostics cut off: {:?}", remainder);
                     self.cursor = raw_buffer.len();
@@ -291,6 +297,12 @@ impl<'a> Iterator for ExtDiagBlockIter<'a> {
             // Device-based Diagnostics
             0b00 => {
                 let length = usize::from(header & 0x3f);
+                if length == 0 {
+                    // The length includes the header byte, so 0 is malformed.
+                    log::warn!("Invalid ext diag block length: {:?}", remainder);
+                    self.cursor = raw_buffer.len();
+                    return None;
+                }
                 if remainder.len() < length {
                     log::warn!("Diagnostics cut off: {:?}", remainder);
                     self.cursor = raw_buffer.len();
